@@ -51,6 +51,19 @@ type leafTarget struct {
 	KeyClass  string // class of the deepest list key on the way ("" if none)
 	NewEntry  bool   // some list entry on the way does not exist yet
 	IsKeyLeaf bool
+	// KeyLeaves are the key leaves (primary path -> rendered value) of every keyed entry on
+	// the way, i.e. what creating those entries adds to the leaf set.
+	KeyLeaves map[string]string
+	// OrderedOn lists (ordered-list path, entry key) pairs on the way.
+	OrderedOn [][2]string
+	// Struct targets (stopAtStruct): the struct type and schema reached, and for a list
+	// entry the generated prototype carrying its key leaves.
+	StructT   reflect.Type
+	StructSch *yang.Entry
+	Proto     reflect.Value
+	KeySrc    reflect.Value // entry (existing or prototype) whose key leaves name the deepest entry on the way
+	InOrdered bool          // the target is inside (or is) an ordered-list entry
+	LastIsEntry bool        // the last element of Elems is a keyed list entry
 }
 
 func relElems(rel string) []model.Elem {
@@ -66,12 +79,22 @@ func relElems(rel string) []model.Elem {
 // drawLeafTarget walks from the root type down to a random leaf field, choosing list
 // keys from existing entries or fresh generated ones.
 func drawLeafTarget(r *simrt.Rng, s *treeState) *leafTarget {
+	return descend(r, s, false)
+}
+
+// descend implements drawLeafTarget; with stopAtStruct it may stop at a container or list
+// entry instead (never at the root).
+func descend(r *simrt.Rng, s *treeState, stopAtStruct bool) *leafTarget {
 	cur := reflect.ValueOf(s.root)
 	t := cur.Type().Elem()
 	sch := s.sch
-	lt := &leafTarget{}
+	lt := &leafTarget{KeyLeaves: map[string]string{}}
 	var keyNames []string // key names of the list entry we are currently in
 	for depth := 0; depth < 12; depth++ {
+		if stopAtStruct && len(lt.Elems) > 0 && r.Intn(3) == 0 {
+			lt.StructT, lt.StructSch = t, sch
+			return lt
+		}
 		type cand struct {
 			i    int
 			kind model.FieldKind
@@ -93,7 +116,18 @@ func drawLeafTarget(r *simrt.Rng, s *treeState) *leafTarget {
 		case len(leaves) > 0:
 			c = leaves[r.Intn(len(leaves))]
 		default:
+			if stopAtStruct && len(lt.Elems) > 0 {
+				lt.StructT, lt.StructSch = t, sch
+				return lt
+			}
 			return nil
+		}
+		if stopAtStruct && c.kind != model.FContainer && c.kind != model.FList && c.kind != model.FOrderedList {
+			if len(lt.Elems) == 0 {
+				continue
+			}
+			lt.StructT, lt.StructSch = t, sch
+			return lt
 		}
 		sf := t.Field(c.i)
 		rel := strings.Split(sf.Tag.Get("path"), "|")[0]
@@ -110,6 +144,7 @@ func drawLeafTarget(r *simrt.Rng, s *treeState) *leafTarget {
 			return lt
 		case model.FContainer:
 			lt.Elems = append(lt.Elems, relElems(rel)...)
+			lt.LastIsEntry = false
 			if cur.IsValid() && !cur.IsNil() {
 				cur = cur.Elem().Field(c.i)
 				if cur.IsNil() {
@@ -149,18 +184,22 @@ func drawLeafTarget(r *simrt.Rng, s *treeState) *leafTarget {
 			names := model.KeyNames(csch)
 			es := relElems(rel)
 			var keyStrs map[string]string
+			var proto reflect.Value
 			if len(existing) > 0 && r.Intn(3) > 0 {
 				j := r.Intn(len(existing))
 				keyStrs = model.MapKeyStrings(existingKeys[j], names)
 				cur = existing[j]
+				proto = reflect.Value{}
+				lt.KeySrc = existing[j]
 			} else {
 				saveP := s.g.P
 				s.g.P.PLeaf, s.g.P.PContainer, s.g.P.PList = 0, 0, 0
-				_, k, ok := s.g.NewEntry(elemT, keyT, csch, 0)
+				e, k, ok := s.g.NewEntry(elemT, keyT, csch, 0)
 				s.g.P = saveP
 				if !ok {
 					return nil
 				}
+				proto = e
 				keyStrs = model.MapKeyStrings(k, names)
 				cur = reflect.Value{}
 				lt.NewEntry = true
@@ -173,6 +212,38 @@ func drawLeafTarget(r *simrt.Rng, s *treeState) *leafTarget {
 			}
 			es[len(es)-1].Keys = keyStrs
 			lt.Elems = append(lt.Elems, es...)
+			lt.Proto = proto
+			if proto.IsValid() {
+				lt.KeySrc = proto
+				for q, v := range model.Walk(proto.Interface(), csch, model.FormatPath(lt.Elems)).Flat() {
+					lt.KeyLeaves[q] = v
+				}
+			} else {
+				nkeyed := 0
+				for _, e := range lt.Elems {
+					if len(e.Keys) > 0 {
+						nkeyed++
+					}
+				}
+				for q, l := range model.Walk(lt.KeySrc.Interface(), csch, model.FormatPath(lt.Elems)).Leaves {
+					// only the entry's own key leaves, not those of entries nested below it
+					n := 0
+					for _, e := range model.ParsePath(q) {
+						if len(e.Keys) > 0 {
+							n++
+						}
+					}
+					if l.Key && n == nkeyed {
+						lt.KeyLeaves[q] = l.Val
+					}
+				}
+			}
+			lt.LastIsEntry = true
+			if c.kind == model.FOrderedList {
+				lp := model.FormatPath(append(append([]model.Elem{}, lt.Elems[:len(lt.Elems)-1]...), model.Elem{Name: lt.Elems[len(lt.Elems)-1].Name}))
+				lt.OrderedOn = append(lt.OrderedOn, [2]string{lp, model.FormatKeys(keyStrs)})
+				lt.InOrdered = true
+			}
 			lt.KeyClass = keyClassOf(keyT, names)
 			t, sch, keyNames = elemT, csch, names
 		}
